@@ -15,6 +15,12 @@ extern "C" void symx_observe(uint64_t);
 #ifndef GATE
 #define GATE 0
 #endif
+#ifndef MODE      /* 0: coordinates (arbitrary masks and bodies, no key): which linear combination reaches which callee
+                     1: scalars (zero masks, phase = body): margins, truth table, admissible output, through the same real code.
+                     phase(x) is an exact ring homomorphism on samples (property C14), so 0+1 give the statement for arbitrary
+                     masks; one query with masks, key, margins and decryption together needs 400-900 s per gate (measured) */
+#define MODE 1
+#endif
 #define T1_8 0x20000000u
 #define T1_16 0x10000000
 #define T1_32 0x08000000
@@ -26,9 +32,14 @@ static int bs_calls = 0, bs_bad = 0, ks_calls = 0;
 static int64_t bs_margin[2];
 static uint32_t bs_xa[2][PLN], bs_xb[2], bs_mu[2];
 static int64_t need_margin = T1_16;
+static uint32_t ks_xa[NEXT], ks_xb;
+static uint32_t bs_ra[2][NEXT > PLN ? NEXT : PLN], bs_rb[2];
 
 static uint32_t phase_S(const LweSample *c) { uint32_t p = (uint32_t) c->b; for (int i = 0; i < PLN; i++) p -= (uint32_t) c->a[i] * S[i]; return p; }
 static uint32_t phase_S2(const LweSample *c) { uint32_t p = (uint32_t) c->b; for (int i = 0; i < NEXT; i++) p -= (uint32_t) c->a[i] * S2[i]; return p; }
+/* s*x for s in {+-1,+-2} written with additions only (a product by the constant 0xFFFFFFFE is a multiplier-equivalence
+   problem for the SAT back-ends: 900 s, no answer) */
+static inline uint32_t lin(int s, uint32_t x) { uint32_t d = (s == 2 || s == -2) ? x + x : x; return s < 0 ? 0u - d : d; }
 static int64_t absd(uint32_t x) { int64_t v = (int64_t) (int32_t) x; return v < 0 ? -v : v; }
 
 /* contract of sign bootstrapping: phase(res) = +-mu + e, sign = sign(phase(x)) whenever phase(x) keeps the margin from 0 and 1/2 */
@@ -45,8 +56,13 @@ static void bootstrap_contract(LweSample *res, const LweBootstrappingKeyFFT *bk,
     int32_t e = nondet_i32();
     ASSUME((int64_t) e >= -noise && (int64_t) e <= noise);
     uint32_t b = (positive ? (uint32_t) mu : 0u - (uint32_t) mu) + (uint32_t) e;
-    for (int i = 0; i < n_out; i++) { uint32_t a = nondet_u32(); res->a[i] = (Torus32) a; b += a * key_out[i]; }
+#if MODE == 0
+    b = nondet_u32();
+#endif
+    for (int i = 0; i < n_out; i++) { uint32_t a = MODE == 0 ? nondet_u32() : 0u; res->a[i] = (Torus32) a; b += a * key_out[i]; }
     res->b = (Torus32) b;
+    for (int i = 0; i < n_out; i++) bs_ra[c][i] = (uint32_t) res->a[i];
+    bs_rb[c] = b;
     res->current_variance = 0.;
     bs_calls++;
 }
@@ -67,7 +83,12 @@ extern "C" void STUBNAME(lweKeySwitch)(LweSample *res, const LweKeySwitchKey *ks
     int32_t e = nondet_i32();
     ASSUME(e >= -T1_64 && e <= T1_64);
     uint32_t b = phase_S2(x) + (uint32_t) e;
-    for (int i = 0; i < PLN; i++) { uint32_t a = nondet_u32(); res->a[i] = (Torus32) a; b += a * S[i]; }
+    for (int i = 0; i < NEXT; i++) ks_xa[i] = (uint32_t) x->a[i];
+    ks_xb = (uint32_t) x->b;
+#if MODE == 0
+    b = nondet_u32();
+#endif
+    for (int i = 0; i < PLN; i++) { uint32_t a = MODE == 0 ? nondet_u32() : 0u; res->a[i] = (Torus32) a; b += a * S[i]; }
     res->b = (Torus32) b;
     res->current_variance = 0.;
     ks_calls++;
@@ -89,8 +110,8 @@ static void world(World &w) {
     w.ck = new TFheGateBootstrappingCloudKeySet(w.ps, 0, w.bkfft);
     w.lk = new_LweKey(w.lp);
     w.gk = new_TGswKey(w.gp);
-    for (int i = 0; i < PLN; i++) { S[i] = nondet_u32(); ASSUME(S[i] <= 1); w.lk->key[i] = (int32_t) S[i]; }
-    for (int i = 0; i < NEXT; i++) { S2[i] = nondet_u32(); ASSUME(S2[i] <= 1); }
+    for (int i = 0; i < PLN; i++) { S[i] = MODE == 0 ? 0u : nondet_u32(); ASSUME(S[i] <= 1); w.lk->key[i] = (int32_t) S[i]; }
+    for (int i = 0; i < NEXT; i++) { S2[i] = MODE == 0 ? 0u : nondet_u32(); ASSUME(S2[i] <= 1); }
     w.sk = new TFheGateBootstrappingSecretKeySet(w.ps, 0, w.bkfft, w.lk, w.gk);
     the_bkfft = w.bkfft;
     bs_calls = 0; bs_bad = 0; ks_calls = 0;
@@ -102,13 +123,19 @@ static LweSample *admissible(World &w, int bit, uint32_t *a_out, uint32_t *ph_ou
     ASSUME(e >= -T1_32 && e <= T1_32);
     uint32_t ph = (bit ? T1_8 : 0u - T1_8) + (uint32_t) e;
     uint32_t b = ph;
-    for (int i = 0; i < PLN; i++) { uint32_t a = nondet_u32(); c->a[i] = (Torus32) a; a_out[i] = a; b += a * S[i]; }
+#if MODE == 0
+    b = nondet_u32();            /* coordinates: any sample at all */
+#endif
+    for (int i = 0; i < PLN; i++) { uint32_t a = MODE == 0 ? nondet_u32() : 0u; c->a[i] = (Torus32) a; a_out[i] = a; b += a * S[i]; }
     c->b = (Torus32) b;
     c->current_variance = 0.;
     *ph_out = ph;
     return c;
 }
 static void check_output(World &w, const LweSample *res, int want, int64_t tol) {
+#if MODE == 0
+    return;
+#endif
     int d = bootsSymDecrypt(res, w.sk);
     symx_observe((uint32_t) d);
     CHECK(d == want + CANARY, "C01 the gate output decrypts to the truth-table value");
@@ -150,9 +177,14 @@ HARNESS(h_gate2) {
 #endif
     CHECK(bs_calls == 1 && !bs_bad && ks_calls == 0, "C01 one sign bootstrapping (with key switch) with the cloud key's FFT key");
     CHECK(bs_mu[0] == T1_8, "C01 bootstrapping message MU = 1/8");
-    for (int i = 0; i < PLN; i++) CHECK(bs_xa[0][i] == (uint32_t) sa * aa[i] + (uint32_t) sb * ab[i], "C01 bootstrapped sample = const + sa*ca + sb*cb (mask)");
-    CHECK(bs_xb[0] == cst + (uint32_t) sa * (uint32_t) ca->b + (uint32_t) sb * (uint32_t) cb->b, "C01 bootstrapped sample = const + sa*ca + sb*cb (body)");
+    for (int i = 0; i < PLN; i++) CHECK(bs_xa[0][i] == lin(sa, aa[i]) + lin(sb, ab[i]), "C01 bootstrapped sample = const + sa*ca + sb*cb (mask)");
+    CHECK(bs_xb[0] == cst + lin(sa, (uint32_t) ca->b) + lin(sb, (uint32_t) cb->b), "C01 bootstrapped sample = const + sa*ca + sb*cb (body)");
+#if MODE == 1
     CHECK(bs_margin[0] >= need_margin, "C01 the phase handed to the bootstrapping keeps the sign margin (1/16; 1/8 for XOR/XNOR) for every admissible input");
+#else
+    for (int i = 0; i < PLN; i++) CHECK((uint32_t) res->a[i] == bs_ra[0][i], "C01 the gate returns the bootstrapped sample unmodified (mask)");
+    CHECK((uint32_t) res->b == bs_rb[0] + CANARY, "C01 the gate returns the bootstrapped sample unmodified (body)");
+#endif
     check_output(w, res, want, T1_32);
     for (int i = 0; i < PLN; i++) CHECK((uint32_t) ca->a[i] == aa[i] && (uint32_t) cb->a[i] == ab[i], "C01 gate inputs unchanged");
     symx_witness();
@@ -173,7 +205,12 @@ HARNESS(h_mux) {
         CHECK(bs_xa[1][i] == ac[i] - aa[i], "C01 MUX second bootstrapped sample = (0,-1/8) - a + c");
     }
     CHECK(bs_xb[0] == (0u - T1_8) + (uint32_t) ca->b + (uint32_t) cb->b && bs_xb[1] == (0u - T1_8) - (uint32_t) ca->b + (uint32_t) cc->b, "C01 MUX bootstrapped bodies");
+#if MODE == 1
     CHECK(bs_margin[0] >= need_margin && bs_margin[1] >= need_margin, "C01 MUX inner phases keep the 1/16 sign margin");
+#else
+    for (int i = 0; i < NEXT; i++) CHECK(ks_xa[i] == bs_ra[0][i] + bs_ra[1][i], "C01 MUX key-switches u1 + u2 + (0,1/8) (mask)");
+    CHECK(ks_xb == T1_8 + bs_rb[0] + bs_rb[1] + CANARY, "C01 MUX key-switches u1 + u2 + (0,1/8) (body)");
+#endif
     check_output(w, res, x ? y : z, 3 * T1_64);
     symx_witness();
 }
@@ -187,10 +224,12 @@ HARNESS(h_gate1) {
     int want;
 #if GATE == 11
     bootsNOT(res, ca, w.ck); want = !x;
-    CHECK(phase_S(res) == 0u - pa, "C01 NOT is the exact negation (noise-free)");
+    for (int i = 0; i < PLN; i++) CHECK((uint32_t) res->a[i] == 0u - aa[i], "C01 NOT negates every mask coefficient");
+    CHECK((uint32_t) res->b == 0u - (uint32_t) ca->b + (MODE == 0 ? CANARY : 0), "C01 NOT is the exact negation (noise-free)");
 #elif GATE == 12
     bootsCOPY(res, ca, w.ck); want = x;
-    CHECK(phase_S(res) == pa, "C01 COPY is exact");
+    for (int i = 0; i < PLN; i++) CHECK((uint32_t) res->a[i] == aa[i], "C01 COPY copies every mask coefficient");
+    CHECK((uint32_t) res->b == (uint32_t) ca->b + (MODE == 0 ? CANARY : 0), "C01 COPY is exact");
 #else
     int v = nondet_i32();
     bootsCONSTANT(res, v, w.ck); want = v != 0;
